@@ -121,6 +121,13 @@ static void gen_operands(ByteSource& in, Limbs& u, Limbs& v, size_t un, size_t v
   else if (k == 2 && vn <= un) { u = limbs(in, un); v.assign(u.begin(), u.begin() + vn); }    // v is a prefix of u (equal when un==vn)
   else if (k == 3) { u.assign(un, ~0ull); v = limbs(in, vn); }
   else { u = limbs(in, un); v = limbs(in, vn); }
+  // top piece of a d-way Toom split all zero (high zero limbs are legal at the mpn level), limb below it large
+  unsigned z = in.pick({12, 2, 1, 1});
+  if (z) {
+    static const size_t D[] = {2, 3, 4, 5, 8, 4, 5, 4}; size_t d = D[in.range(0, 7)];
+    auto zap = [&](Limbs& w) { size_t n = w.size(), piece = (n + d - 1) / d, keep = (d - 1) * piece; if (keep >= n || keep == 0) return; std::fill(w.begin() + keep, w.end(), 0); if (in.flag()) w[keep - 1] |= 3ull << 62; };
+    if (z == 1 || z == 3) zap(u); if (z == 2 || z == 3) zap(v);
+  }
 }
 
 static void case_mpn_mul(ByteSource& in, CaseInfo& ci) {
@@ -254,7 +261,21 @@ static void case_mpz(ByteSource& in, CaseInfo& ci) {
   }
 }
 
+static void case_huge(ByteSource& in, CaseInfo& ci) {
+  // MFA regime of the FFT multiplier (mpn_mul_fft_main depth >= 11: un+vn above ~65000 limbs): rare class, fingerprint oracle
+  size_t tot = (size_t)in.logrange(66000, in.scale >= 120 ? 600000 : 150000); size_t vn = (size_t)in.range(tot / 4, tot / 2), un = tot - vn;
+  unsigned st = in.pick({3, 3, 2, 2, 2});   // random; u power of two; v power of two; all ones; sparse
+  Limbs u, v;
+  if (st == 0) { u = limbs(in, un, S_UNIFORM); v = limbs(in, vn, S_UNIFORM); } else if (st == 1) { u = limbs(in, un, S_SINGLEBIT); v = limbs(in, vn); }
+  else if (st == 2) { u = limbs(in, un); v = limbs(in, vn, S_SINGLEBIT); } else if (st == 3) { u.assign(un, ~0ull); v.assign(vn, ~0ull); } else { u = limbs(in, un, S_SPARSE); v = limbs(in, vn, S_RUNS); }
+  bool sq = in.chance(40);
+  ci.label("huge_mfa"); ci.label(fft_depth_label(un, sq ? un : vn)); ci.nontrivial = true; static const char* SN[] = {"random", "u=2^k", "v=2^k", "all-ones", "sparse x runs"};
+  ci.d("%s un=%zu vn=%zu operands %s ", sq ? "mpn_sqr" : "mpn_mul", un, sq ? un : vn, SN[st]); DESC(ci, "u=" + show(u, 64) + " v=" + show(v, 64));
+  if (sq) { Guarded r(2 * un); mpn_sqr(r.p(), u.data(), un); REQUIRE(r.intact(), "mpn_sqr(n=%zu): wrote outside the destination", un); check_product("mpn_sqr", r.p(), u.data(), un, u.data(), un, ci); }
+  else { Guarded r(un + vn); mpn_mul(r.p(), u.data(), un, v.data(), vn); REQUIRE(r.intact(), "mpn_mul(un=%zu,vn=%zu): wrote outside the destination", un, vn); check_product("mpn_mul", r.p(), u.data(), un, v.data(), vn, ci); }
+}
 static void check(ByteSource& in, CaseInfo& ci) {
+  if (in.scale >= 90 && (in.u8() ^ 0xA5u) < 4 && in.chance(128)) { case_huge(in, ci); return; }   // ~1 in 128 of the top size classes; never for an exhausted (all-zero) stream
   switch (in.pick({8, 4, 3, 2, 5})) {
     case 0: case_mpn_mul(in, ci); break; case 1: case_mul_n_sqr(in, ci); break; case 2: case_mul_1(in, ci); break;
     case 3: case_fft_direct(in, ci); break; default: case_mpz(in, ci); break;
@@ -262,6 +283,6 @@ static void check(ByteSource& in, CaseInfo& ci) {
 }
 namespace eng {
 PropDef g_prop = {"C01",
-  "Cases: one call of mpn_mul (un>=vn>=1; (un,vn) region-targeted for every branch of the size dispatch: tiny, thresholds +-2, un/vn ratios at the Toom dispatch boundaries, un+vn around 2*threshold, very unbalanced incl. chunked basecase un>500, log-uniform to the scale cap), mpn_mul_n / mpn_sqr (n around every threshold), mpn_mul_1/addmul_1/submul_1 (incl. in-place and rp=s1p-k overlap for mul_1), mpn_mul_fft_main called directly (n2>=n1/7), mpz_mul (signs, zero, all alias patterns incl. same object), mpz_mul_ui/si, mpz_addmul/submul(_ui) with accumulators equal/opposite/near the product. Limb styles uniform/runs/palette/all-ones/single-bit/low-zero, all-ones x all-ones, v a prefix of u. Oracle: refint product limb by limb (un+vn <= 24000 limbs), above that fingerprints modulo four 61-bit primes, 2^64 and 2^64-1; guard limbs; sources unchanged. Non-trivial: vn >= 2 (mpn) / operands >= 2 limbs (mpz). Distinct = hash of all decoded choices.",
-  check, nullptr, {"mul:basecase", "mul:basecase_chunked", "mul:toom42", "mul:toom32", "mul:toom3_unbal", "mul:toom53", "mul:toom4", "mul:toom8h", "mul:fft", "mul:mul_n_plus_tail", "mul_n:fft", "sqr:fft", "sqr:toom8", "fft_direct", "aorsmul:sign_change", "mul:same_object"}};
+  "Cases: one call of mpn_mul (un>=vn>=1; (un,vn) region-targeted for every branch of the size dispatch: tiny, thresholds +-2, un/vn ratios at the Toom dispatch boundaries, un+vn around 2*threshold, very unbalanced incl. chunked basecase un>500, log-uniform to the scale cap), mpn_mul_n / mpn_sqr (n around every threshold), mpn_mul_1/addmul_1/submul_1 (incl. in-place and rp=s1p-k overlap for mul_1), mpn_mul_fft_main called directly (n2>=n1/7), mpz_mul (signs, zero, all alias patterns incl. same object), mpz_mul_ui/si, mpz_addmul/submul(_ui) with accumulators equal/opposite/near the product. Limb styles uniform/runs/palette/all-ones/single-bit/low-zero, all-ones x all-ones, v a prefix of u, top piece of a 2/3/4/5/8-way split zero; a rare class (about 1 in 128 cases at scale >= 90, i.e. ~1 in 1300 overall) multiplies 66000..150000-limb (thorough: ..600000) operands in the MFA regime of the FFT with random, power-of-two, all-ones and sparse operands. Oracle: refint product limb by limb (un+vn <= 24000 limbs), above that fingerprints modulo four 61-bit primes, 2^64 and 2^64-1; guard limbs; sources unchanged. Non-trivial: vn >= 2 (mpn) / operands >= 2 limbs (mpz). Distinct = hash of all decoded choices.",
+  check, nullptr, {"mul:basecase", "mul:basecase_chunked", "mul:toom42", "mul:toom32", "mul:toom3_unbal", "mul:toom53", "mul:toom4", "mul:toom8h", "mul:fft", "mul:mul_n_plus_tail", "mul_n:fft", "sqr:fft", "sqr:toom8", "fft_direct", "aorsmul:sign_change", "mul:same_object", "huge_mfa"}};
 }
